@@ -42,6 +42,10 @@ CallBad(c) ==
                           ELSE ~((c.cls = "named" /\ Len(c.name) = 0) \/
                                  (c.out[1] = "ok" /\ S(c.out[2].p) \o sep \o S(c.out[2].id) = s /\ SepFree(S(c.out[2].p), sep))))
           THEN {"mon.C15.split"} ELSE {})
+    [] c.f = "from_reference" ->
+         LET spec == FromReference(c.cls, JRef(c.ref), Ctx(c.ctx)) IN
+         (IF (IF spec = Raise("TypeError") THEN c.out[1] # "raise" \/ c.out[3] # "TypeError" ELSE OutBad(spec, c.out))
+          THEN {"out.ref.from_reference"} ELSE {})
     [] c.f = "validate_str" ->
          (IF OutBad(ValidateStr(c.cls, S(c.s), Ctx(c.ctx)), c.out) THEN {"out.ref.validate_str"} ELSE {})
     [] c.f = "curie" ->
